@@ -216,3 +216,10 @@ Definition h264_item_loss seq0 := item_loss c264 z264 keep264 seq0 H264_single H
 Definition h265_item_loss seq0 := item_loss c265 z265 keep265 seq0 H265_single H265_agg H265_fu H265_write.
 Definition h264_item_all seq0 := item_all c264 z264 keep264 seq0 H264_single H264_agg H264_fu H264_write.
 Definition h265_item_all seq0 := item_all c265 z265 keep265 seq0 H265_single H265_agg H265_fu H265_write.
+
+Definition h264_splice_step seq0 := splice_step c264 z264 keep264 seq0 H264_single H264_agg H264_fu H264_write.
+Definition h265_splice_step seq0 := splice_step c265 z265 keep265 seq0 H265_single H265_agg H265_fu H265_write.
+Definition h264_packetize_prov seq0 := packetize_prov c264 z264 keep264 seq0 H264_single H264_agg H264_fu H264_write.
+Definition h265_packetize_prov seq0 := packetize_prov c265 z265 keep265 seq0 H265_single H265_agg H265_fu H265_write.
+Definition h264_never_spliced seq0 := never_spliced c264 z264 keep264 seq0 H264_single H264_agg H264_fu H264_write.
+Definition h265_never_spliced seq0 := never_spliced c265 z265 keep265 seq0 H265_single H265_agg H265_fu H265_write.
